@@ -1035,6 +1035,156 @@ Proof.
   - assert (N : k_state (k s) <> CS_FLUSH) by (intro X; apply cstate_beq_flush in X; congruence).
     repeat split; intros; try reflexivity; try assumption; contradiction.
 Qed.
+
+Lemma op_eq_service : forall o : op, {o = OService} + {o <> OService}.
+Proof. intros o. destruct o; (left; reflexivity) || (right; discriminate). Qed.
+
+(* ---- what the command machine still has to send to complete the unit in flight ---- *)
+Definition remaining (s : state) : list N :=
+  let r := phase_rest (k_wbuf (k s)) (cbuf s) (k_position (k s)) in
+  match k_wstate (k s) with
+  | WS_BEFORE => r ++ text_of (cbuf s) ++ nl_text (k_cr (k s))
+  | WS_MAIN => r ++ nl_text (k_cr (k s))
+  | WS_AFTER => r
+  end.
+
+(* same for the event machine, up to the newline that closes the unit: its text is only chosen
+   (from k_cr) when the payload has been sent *)
+Definition remaining_u (s : state) : list N :=
+  let r := phase_rest (u_wbuf (u s)) (ubuf s) (u_position (u s)) in
+  match u_wstate (u s) with
+  | WS_BEFORE => r ++ text_of (ubuf s)
+  | WS_MAIN => r
+  | WS_AFTER => r
+  end.
+
+Lemma remaining_fresh : forall s after,
+  remaining (setk_state CS_FLUSH (start_flush_c after s)) =
+  nl_text (k_cr (k s)) ++ text_of (cbuf s) ++ nl_text (k_cr (k s)).
+Proof.
+  intros s after. unfold remaining, start_flush_c, phase_rest. scbn. cbn [wb_text skipn].
+  rewrite text_of_nl. reflexivity.
+Qed.
+Lemma remaining_fresh_raw : forall s after,
+  remaining (setk_state CS_FLUSH (start_flush_raw_c after s)) = text_of (cbuf s).
+Proof. intros s after. reflexivity. Qed.
+
+Lemma remaining_kpart : forall s1 s, kpart s1 = kpart s ->
+  remaining s1 = remaining s /\ k_wafter (k s1) = k_wafter (k s).
+Proof.
+  intros s1 s H. unfold kpart in H. inversion H. unfold remaining.
+  repeat match goal with E : _ = _ |- _ => rewrite E; clear E end. split; reflexivity.
+Qed.
+
+Lemma remaining_char : forall s ch rest,
+  phase_rest (k_wbuf (k s)) (cbuf s) (k_position (k s)) = ch :: rest ->
+  remaining s = ch :: remaining (setk_position (S (k_position (k s))) s).
+Proof.
+  intros s ch rest H. pose proof H as H'. unfold phase_rest in H'. apply text_of_cons_inv in H'.
+  destruct H' as (_ & _ & H3). fold (phase_rest (k_wbuf (k s)) (cbuf s) (S (k_position (k s)))) in H3.
+  unfold remaining. scbn. rewrite H, H3. destruct (k_wstate (k s)); reflexivity.
+Qed.
+
+Lemma flush_step_c_none : forall s s', flush_step_c s = (s', None) ->
+  remaining s' = remaining s /\ k_wafter (k s') = k_wafter (k s) /\ upart s' = upart s /\
+  (k_state (k s') = k_state (k s) \/ (k_state (k s') = k_wafter (k s) /\ remaining s = [])).
+Proof.
+  intros s s' H. pose proof (flush_step_c_upart s) as U. rewrite H in U. cbn [fst] in U.
+  unfold flush_step_c in H.
+  destruct (wbuf_char (k_wbuf (k s)) (cbuf s) (k_position (k s))) as [c|] eqn:E.
+  2:{ inversion H; subst. repeat split; auto. }
+  destruct (c =? 0)%N eqn:E0; [|discriminate]. apply N.eqb_eq in E0. subst c.
+  inversion H; subst. clear H.
+  assert (R : phase_rest (k_wbuf (k s)) (cbuf s) (k_position (k s)) = []).
+  { unfold phase_rest. apply text_of_zero_nil. rewrite <- wbuf_char_nth. exact E. }
+  unfold phase_switch_c in *. destruct (k_wstate (k s)) eqn:W.
+  - split; [|repeat split; auto]. unfold remaining. scbn. rewrite W, R. reflexivity.
+  - split; [|repeat split; auto]. unfold remaining. scbn. rewrite W, R.
+    unfold phase_rest. cbn [wb_text skipn]. rewrite text_of_nl. reflexivity.
+  - cbv zeta in *.
+    assert (R' : remaining s = []) by (unfold remaining; rewrite W; exact R).
+    destruct (cstate_beq (k_wafter (k s)) CS_AFTER_RESET).
+    + split; [|repeat split; auto]. unfold remaining. scbn. rewrite W. reflexivity.
+    + split; [|repeat split; auto]. unfold remaining. scbn. rewrite W. reflexivity.
+Qed.
+
+(* ---- the event machine's unit in flight ---- *)
+Lemma remaining_u_upart : forall s1 s, upart s1 = upart s ->
+  remaining_u s1 = remaining_u s /\ u_wafter (u s1) = u_wafter (u s) /\
+  u_wstate (u s1) = u_wstate (u s) /\ u_state (u s1) = u_state (u s).
+Proof.
+  intros s1 s H. unfold upart in H. inversion H. unfold remaining_u.
+  repeat match goal with E : _ = _ |- _ => rewrite E; clear E end. repeat split; reflexivity.
+Qed.
+
+Lemma remaining_u_char : forall s ch rest,
+  phase_rest (u_wbuf (u s)) (ubuf s) (u_position (u s)) = ch :: rest ->
+  remaining_u s = ch :: remaining_u (setu_position (S (u_position (u s))) s).
+Proof.
+  intros s ch rest H. pose proof H as H'. unfold phase_rest in H'. apply text_of_cons_inv in H'.
+  destruct H' as (_ & _ & H3). fold (phase_rest (u_wbuf (u s)) (ubuf s) (S (u_position (u s)))) in H3.
+  unfold remaining_u. scbn. rewrite H, H3. destruct (u_wstate (u s)); reflexivity.
+Qed.
+
+(* one accepted step (or several steps) of the event machine in US_FLUSH: bytes were sent, and
+   (A) the closing newline is not yet chosen, (B) it is being chosen now, (C) it was chosen before *)
+Definition ustep_rel (s s' : state) (bytes : list N) : Prop :=
+  u_wafter (u s') = u_wafter (u s) /\
+  ((u_state (u s') = US_FLUSH /\ u_wstate (u s) <> WS_AFTER /\ u_wstate (u s') <> WS_AFTER /\
+    bytes ++ remaining_u s' = remaining_u s) \/
+   (u_state (u s') = US_FLUSH /\ u_wstate (u s) = WS_MAIN /\ u_wstate (u s') = WS_AFTER /\
+    bytes = [] /\ remaining_u s = [] /\ remaining_u s' = nl_text (k_cr (k s))) \/
+   (u_wstate (u s) = WS_AFTER /\ u_wstate (u s') = WS_AFTER /\ bytes ++ remaining_u s' = remaining_u s /\
+    (u_state (u s') = US_FLUSH \/ (u_state (u s') = u_wafter (u s) /\ remaining_u s' = [])))).
+
+Lemma wstate_after_dec : forall x : wstate, {x = WS_AFTER} + {x <> WS_AFTER}.
+Proof. intros x. destruct x; (left; reflexivity) || (right; discriminate). Qed.
+
+Lemma ustep_refl : forall s, u_state (u s) = US_FLUSH -> ustep_rel s s [].
+Proof.
+  intros s F. split; [reflexivity|]. destruct (wstate_after_dec (u_wstate (u s))) as [A|A].
+  - right. right. repeat split; auto.
+  - left. repeat split; auto.
+Qed.
+
+Lemma ustep_char : forall s ch rest, u_state (u s) = US_FLUSH ->
+  phase_rest (u_wbuf (u s)) (ubuf s) (u_position (u s)) = ch :: rest ->
+  ustep_rel s (setu_position (S (u_position (u s))) s) [ch].
+Proof.
+  intros s ch rest F P. pose proof (remaining_u_char s ch rest P) as R.
+  split; [reflexivity|]. destruct (wstate_after_dec (u_wstate (u s))) as [A|A].
+  - right. right. repeat split; auto.
+  - left. repeat split; auto.
+Qed.
+
+Lemma ustep_upart : forall s s1 s2 bytes, ustep_rel s s1 bytes -> upart s2 = upart s1 -> ustep_rel s s2 bytes.
+Proof.
+  intros s s1 s2 bytes H U. destruct (remaining_u_upart _ _ U) as (R & Wa & Ws & St).
+  unfold ustep_rel in *. rewrite R, Wa, Ws, St. exact H.
+Qed.
+
+Lemma flush_step_u_none : forall s s', u_state (u s) = US_FLUSH -> flush_step_u s = (s', None) ->
+  ustep_rel s s' [].
+Proof.
+  intros s s' F H. unfold flush_step_u in H.
+  destruct (wbuf_char (u_wbuf (u s)) (ubuf s) (u_position (u s))) as [c|] eqn:E.
+  2:{ inversion H; subst. apply (ustep_upart s s); [apply ustep_refl; exact F|reflexivity]. }
+  destruct (c =? 0)%N eqn:E0; [|discriminate]. apply N.eqb_eq in E0. subst c.
+  inversion H; subst. clear H.
+  assert (R : phase_rest (u_wbuf (u s)) (ubuf s) (u_position (u s)) = []).
+  { unfold phase_rest. apply text_of_zero_nil. rewrite <- wbuf_char_nth. exact E. }
+  unfold phase_switch_u. destruct (u_wstate (u s)) eqn:W.
+  - split; [reflexivity|]. left. scbn. repeat split; try congruence; try discriminate.
+    unfold remaining_u. scbn. rewrite W, R. reflexivity.
+  - split; [reflexivity|]. right. left. scbn. repeat split; try congruence.
+    + unfold remaining_u. rewrite W. exact R.
+    + unfold remaining_u, phase_rest. scbn. cbn [wb_text skipn]. apply text_of_nl.
+  - split; [reflexivity|]. right. right. scbn.
+    assert (R' : remaining_u s = []) by (unfold remaining_u; rewrite W; exact R).
+    assert (R'' : remaining_u (setu_state (u_wafter (u s)) s) = []).
+    { unfold remaining_u. scbn. rewrite W. exact R. }
+    repeat split; try congruence. right. split; [reflexivity|exact R''].
+Qed.
 Section World2.
 Variable D : desc.
 Variables ioS muS hS : Type.
@@ -1274,5 +1424,463 @@ Proof.
 Qed.
 
 End Strict.
+
+(* ================================================================== *)
+(* 6. exclusion, ownership, frames for one service call                 *)
+(* ================================================================== *)
+
+Lemma no_hyp_false : false = true -> no_uns_hold.
+Proof. discriminate. Qed.
+
+Lemma service_body_fst : forall w,
+  fst (service_body w) = fst (cmd_service (fst (unsolicited_events_service w))).
+Proof.
+  intros w. unfold Fsm.service_body.
+  destruct (unsolicited_events_service w) as [w1 us]. cbn [fst].
+  destruct (cmd_service w1) as [w2 r]. cbn [fst].
+  destruct (negb (us =? ST_OK)%Z || negb (ustate_beq (u_state (u (st w2))) US_IDLE)); reflexivity.
+Qed.
+
+Lemma cmd_service_wait : forall w, k_state (k (st w)) = CS_FLUSH_WAIT ->
+  cmd_service w = (set_st (process_io_write_wait (st w)) w, ST_BUSY).
+Proof. intros w H. unfold Fsm.cmd_service. rewrite H. reflexivity. Qed.
+Lemma uns_service_wait : forall w, u_state (u (st w)) = US_FLUSH_WAIT ->
+  unsolicited_events_service w = (set_st (unsolicited_process_io_write_wait (st w)) w, ST_BUSY).
+Proof. intros w H. unfold Fsm.unsolicited_events_service. rewrite H. reflexivity. Qed.
+
+Lemma cstate_flush_dec : forall x : cstate, {x = CS_FLUSH} + {x <> CS_FLUSH}.
+Proof. intros x. destruct x; (left; reflexivity) || (right; discriminate). Qed.
+Lemma cstate_wait_dec : forall x : cstate, {x = CS_FLUSH_WAIT} + {x <> CS_FLUSH_WAIT}.
+Proof. intros x. destruct x; (left; reflexivity) || (right; discriminate). Qed.
+Lemma ustate_flush_dec : forall x : ustate, {x = US_FLUSH} + {x <> US_FLUSH}.
+Proof. intros x. destruct x; (left; reflexivity) || (right; discriminate). Qed.
+Lemma ustate_wait_dec : forall x : ustate, {x = US_FLUSH_WAIT} + {x <> US_FLUSH_WAIT}.
+Proof. intros x. destruct x; (left; reflexivity) || (right; discriminate). Qed.
+
+(* what a step of the command machine in CS_FLUSH does: at most one write event, tagged ATCMD, of
+   the byte under the cursor; the state moves by flush_step_c or (refusal) not at all *)
+Lemma cmd_flush_summary : forall w, k_state (k (st w)) = CS_FLUSH ->
+  let w' := fst (cmd_service w) in
+  (tr w' = tr w /\ st w' = fst (flush_step_c (st w)) /\ snd (flush_step_c (st w)) = None) \/
+  (exists ch ok rest, tr w' = EWr ATCMD ch ok :: tr w /\
+     phase_rest (k_wbuf (k (st w))) (cbuf (st w)) (k_position (k (st w))) = ch :: rest /\
+     st w' = if ok then setk_position (S (k_position (k (st w)))) (st w) else st w).
+Proof.
+  intros w H. cbv zeta. rewrite cmd_service_flush by exact H. rewrite process_io_write_eq.
+  destruct (flush_step_c (st w)) as [s' [ch|]] eqn:E.
+  - right. apply flush_step_c_some in E. destruct E as [E1 E2].
+    destruct (io_write (io w) ch) as [io' ok]. exists ch, ok. eexists. cbn [fst].
+    destruct ok; (split; [reflexivity|]; split; [exact E2|]); [exact E1|reflexivity].
+  - left. cbn [fst snd]. repeat split; reflexivity.
+Qed.
+
+Lemma uns_flush_summary : forall w, u_state (u (st w)) = US_FLUSH ->
+  let w' := fst (unsolicited_events_service w) in
+  (tr w' = tr w /\ st w' = fst (flush_step_u (st w)) /\ snd (flush_step_u (st w)) = None) \/
+  (exists ch ok rest, tr w' = EWr UNSOL ch ok :: tr w /\
+     phase_rest (u_wbuf (u (st w))) (ubuf (st w)) (u_position (u (st w))) = ch :: rest /\
+     st w' = if ok then setu_position (S (u_position (u (st w)))) (st w) else st w).
+Proof.
+  intros w H. cbv zeta. rewrite uns_service_flush by exact H. rewrite unsolicited_process_io_write_eq.
+  destruct (flush_step_u (st w)) as [s' [ch|]] eqn:E.
+  - right. apply flush_step_u_some in E. destruct E as [E1 E2].
+    destruct (io_write (io w) ch) as [io' ok]. exists ch, ok. eexists. cbn [fst].
+    destruct ok; (split; [reflexivity|]; split; [exact E2|]); [exact E1|reflexivity].
+  - left. cbn [fst snd]. repeat split; reflexivity.
+Qed.
+
+(* ---- frame of the command machine's step, any state, any oracles ---- *)
+Theorem C11_frame_cmd_proof : forall w, upart (st (fst (cmd_service w))) = upart (st w).
+Proof.
+  intros w. destruct (cstate_flush_dec (k_state (k (st w)))) as [F|F].
+  - destruct (cmd_flush_summary w F) as [(_ & E & _) | (ch & ok & rest & _ & _ & E)]; rewrite E.
+    + apply flush_step_c_upart.
+    + destruct ok; reflexivity.
+  - destruct (cstate_wait_dec (k_state (k (st w)))) as [W|W].
+    + rewrite cmd_service_wait by exact W. cbn [fst Fsm.st Fsm.set_st].
+      unfold process_io_write_wait. destruct (negb _); reflexivity.
+    + destruct (cmd_service_fr false no_hyp_false w F W) as [[H _] _]. exact H.
+Qed.
+
+(* ---- frame of the event machine's step ---- *)
+Lemma uns_frame_gen : forall b, (b = true -> no_uns_hold) -> forall w,
+  let s := st w in let s' := st (fst (unsolicited_events_service w)) in
+  kpart s' = kpart s /\
+  (if b then k_state (k s') = k_state (k s) /\ k_hold (k s') = k_hold (k s)
+   else k_state (k s') = k_state (k s) \/ k_state (k s') = CS_HOLD).
+Proof.
+  intros b Hnh w. cbv zeta. destruct (ustate_flush_dec (u_state (u (st w)))) as [F|F].
+  - assert (G : k (st (fst (unsolicited_events_service w))) = k (st w) /\
+                cbuf (st (fst (unsolicited_events_service w))) = cbuf (st w)).
+    { destruct (uns_flush_summary w F) as [(_ & E & _) | (ch & ok & rest & _ & _ & E)]; rewrite E.
+      - apply flush_step_u_k.
+      - destruct ok; split; reflexivity. }
+    destruct G as [G1 G2]. unfold kpart. rewrite G1, G2. split; [reflexivity|]. destruct b; auto.
+  - destruct (ustate_wait_dec (u_state (u (st w)))) as [W|W].
+    + rewrite uns_service_wait by exact W. cbn [fst Fsm.st Fsm.set_st].
+      unfold kpart. rewrite unsolicited_process_io_write_wait_k.
+      replace (cbuf (unsolicited_process_io_write_wait (st w))) with (cbuf (st w))
+        by (unfold unsolicited_process_io_write_wait; destruct (negb _); reflexivity).
+      split; [reflexivity|]. destruct b; auto.
+    + destruct (uns_service_fr b Hnh w F W) as [(H1 & _ & H3) _]. split; assumption.
+Qed.
+
+Theorem C11_frame_uns_proof : forall w,
+  let s := st w in let s' := st (fst (unsolicited_events_service w)) in
+  kpart s' = kpart s /\ (k_state (k s') = k_state (k s) \/ k_state (k s') = CS_HOLD).
+Proof. intros w. exact (uns_frame_gen false no_hyp_false w). Qed.
+
+Theorem C11_frame_uns_nohold_proof : no_uns_hold -> forall w,
+  let s := st w in let s' := st (fst (unsolicited_events_service w)) in
+  kpart s' = kpart s /\ k_state (k s') = k_state (k s) /\ k_hold (k s') = k_hold (k s).
+Proof. intros Hn w. exact (uns_frame_gen true (fun _ => Hn) w). Qed.
+
+(* ---- the exclusion is preserved by each machine's step, hence by a service call ---- *)
+Lemma uns_service_excl : forall w, excl (st w) -> excl (st (fst (unsolicited_events_service w))).
+Proof.
+  intros w X. destruct (C11_frame_uns_proof w) as [_ K]. cbv zeta in K.
+  destruct (ustate_flush_dec (u_state (u (st w)))) as [F|F].
+  - intros [A _]. apply X. split; [|exact F]. destruct K as [K|K]; congruence.
+  - destruct (ustate_wait_dec (u_state (u (st w)))) as [W|W].
+    + rewrite uns_service_wait by exact W. cbn [fst Fsm.st Fsm.set_st].
+      destruct (C11_wait_uns_proof (st w) W) as (I & _ & E). intros [A B].
+      destruct (cstate_flush_dec (k_state (k (st w)))) as [C|C].
+      * rewrite (E C) in B. congruence.
+      * rewrite unsolicited_process_io_write_wait_k in A. contradiction.
+    + destruct (uns_service_fr false no_hyp_false w F W) as [(_ & H2 & _) _].
+      intros [_ B]. apply F. apply H2. exact B.
+Qed.
+
+Lemma cmd_service_excl : forall w, excl (st w) -> excl (st (fst (cmd_service w))).
+Proof.
+  intros w X. pose proof (C11_frame_cmd_proof w) as U.
+  assert (Us : u_state (u (st (fst (cmd_service w)))) = u_state (u (st w))).
+  { unfold upart in U. inversion U. reflexivity. }
+  destruct (cstate_flush_dec (k_state (k (st w)))) as [F|F].
+  - intros [_ B]. apply X. split; [exact F|]. congruence.
+  - destruct (cstate_wait_dec (k_state (k (st w)))) as [W|W].
+    + intros [A B]. revert A. rewrite cmd_service_wait by exact W. cbn [fst Fsm.st Fsm.set_st].
+      destruct (C11_wait_cmd_proof (st w) W) as (I & _ & _). intros A. apply I in A. congruence.
+    + destruct (cmd_service_fr false no_hyp_false w F W) as [(_ & H2) _].
+      intros [A _]. apply F. apply H2. exact A.
+Qed.
+
+Theorem C11_exclusion_preserved_proof : forall w, excl (st w) -> excl (st (fst (service_body w))).
+Proof.
+  intros w X. rewrite service_body_fst. apply cmd_service_excl. apply uns_service_excl. exact X.
+Qed.
+
+(* ---- the write events of each machine's step ---- *)
+Lemma cmd_service_writes : forall w, exists evs,
+  tr (fst (cmd_service w)) = evs ++ tr w /\
+  (writes evs = [] \/
+   exists ch ok rest, writes evs = [(ATCMD, ch, ok)] /\ k_state (k (st w)) = CS_FLUSH /\
+     phase_rest (k_wbuf (k (st w))) (cbuf (st w)) (k_position (k (st w))) = ch :: rest).
+Proof.
+  intros w. destruct (cstate_flush_dec (k_state (k (st w)))) as [F|F].
+  - destruct (cmd_flush_summary w F) as [(E & _) | (ch & ok & rest & E & P & _)].
+    + exists []. split; [exact E|left; reflexivity].
+    + exists [EWr ATCMD ch ok]. split; [exact E|]. right. exists ch, ok, rest. repeat split; assumption.
+  - destruct (cstate_wait_dec (k_state (k (st w)))) as [W|W].
+    + exists []. split; [|left; reflexivity]. rewrite cmd_service_wait by exact W. reflexivity.
+    + destruct (cmd_service_fr false no_hyp_false w F W) as [_ (evs & E & N)].
+      exists evs. split; [exact E|]. left. apply nowr_writes. exact N.
+Qed.
+
+Lemma uns_service_writes : forall w, exists evs,
+  tr (fst (unsolicited_events_service w)) = evs ++ tr w /\
+  (writes evs = [] \/
+   exists ch ok rest, writes evs = [(UNSOL, ch, ok)] /\ u_state (u (st w)) = US_FLUSH /\
+     phase_rest (u_wbuf (u (st w))) (ubuf (st w)) (u_position (u (st w))) = ch :: rest).
+Proof.
+  intros w. destruct (ustate_flush_dec (u_state (u (st w)))) as [F|F].
+  - destruct (uns_flush_summary w F) as [(E & _) | (ch & ok & rest & E & P & _)].
+    + exists []. split; [exact E|left; reflexivity].
+    + exists [EWr UNSOL ch ok]. split; [exact E|]. right. exists ch, ok, rest. repeat split; assumption.
+  - destruct (ustate_wait_dec (u_state (u (st w)))) as [W|W].
+    + exists []. split; [|left; reflexivity]. rewrite uns_service_wait by exact W. reflexivity.
+    + destruct (uns_service_fr false no_hyp_false w F W) as [_ (evs & E & N)].
+      exists evs. split; [exact E|]. left. apply nowr_writes. exact N.
+Qed.
+
+(* ---- one service call: at most one write attempt, by the machine that owns the flush ---- *)
+Theorem C11_one_writer_proof : forall w, excl (st w) ->
+  exists evs, tr (fst (service_body w)) = evs ++ tr w /\
+  (writes evs = [] \/
+   (exists ch ok rest, writes evs = [(UNSOL, ch, ok)] /\ u_state (u (st w)) = US_FLUSH /\
+      phase_rest (u_wbuf (u (st w))) (ubuf (st w)) (u_position (u (st w))) = ch :: rest) \/
+   (exists ch ok rest, writes evs = [(ATCMD, ch, ok)] /\ k_state (k (st w)) = CS_FLUSH /\
+      phase_rest (k_wbuf (k (st w))) (cbuf (st w)) (k_position (k (st w))) = ch :: rest)).
+Proof.
+  intros w X. rewrite service_body_fst.
+  destruct (uns_service_writes w) as (e1 & T1 & W1).
+  set (w1 := fst (unsolicited_events_service w)) in *.
+  destruct (cmd_service_writes w1) as (e2 & T2 & W2).
+  destruct (C11_frame_uns_proof w) as [KP K]. cbv zeta in KP, K. fold w1 in KP, K.
+  exists (e2 ++ e1). split; [rewrite T2, T1; apply app_assoc|]. rewrite writes_app.
+  destruct W2 as [W2 | (ch & ok & rest & W2 & F2 & P2)].
+  - rewrite W2. cbn [app]. destruct W1 as [W1 | W1]; [left; exact W1 | right; left; exact W1].
+  - assert (F : k_state (k (st w)) = CS_FLUSH) by (destruct K as [K|K]; congruence).
+    destruct W1 as [W1 | (ch1 & ok1 & rest1 & _ & F1 & _)].
+    + rewrite W1, W2. right. right. exists ch, ok, rest. split; [reflexivity|]. split; [exact F|].
+      unfold kpart in KP. inversion KP. congruence.
+    + exfalso. apply X. split; assumption.
+Qed.
+
+(* ================================================================== *)
+(* 7. a command-response unit in flight, over any number of service     *)
+(*    calls, arbitrary oracles                                          *)
+(* ================================================================== *)
+
+(* accepted bytes with their producer, of a history (oldest first) *)
+Definition accepted_wr (h : list event) : list (fsm * N) :=
+  flat_map (fun e => match e with EWr f ch true => [(f, ch)] | _ => [] end) h.
+
+Lemma accepted_wr_app : forall a b, accepted_wr (a ++ b) = accepted_wr a ++ accepted_wr b.
+Proof. intros. apply flat_map_app. Qed.
+Lemma accepted_wr_nowr : forall evs, nowr evs = true -> accepted_wr (rev evs) = [].
+Proof.
+  induction evs as [|e evs IH]; intros H; [reflexivity|].
+  cbn [nowr forallb] in H. apply andb_true_iff in H. destruct H as [H1 H2].
+  cbn [rev]. rewrite accepted_wr_app, (IH H2). destruct e; try reflexivity. discriminate.
+Qed.
+
+(* the event machine's step while the command machine owns the flush *)
+Lemma uns_step_in_cmd_flush : no_uns_hold -> forall w,
+  k_state (k (st w)) = CS_FLUSH -> u_state (u (st w)) <> US_FLUSH ->
+  let w1 := fst (unsolicited_events_service w) in
+  kpart (st w1) = kpart (st w) /\ k_state (k (st w1)) = CS_FLUSH /\ u_state (u (st w1)) <> US_FLUSH /\
+  exists evs, tr w1 = evs ++ tr w /\ nowr evs = true.
+Proof.
+  intros Hn w F X. cbv zeta.
+  destruct (C11_frame_uns_nohold_proof Hn w) as (KP & KS & _). cbv zeta in KP, KS.
+  split; [exact KP|]. split; [congruence|].
+  destruct (ustate_wait_dec (u_state (u (st w)))) as [W|W].
+  - rewrite uns_service_wait by exact W. cbn [fst Fsm.st Fsm.set_st Fsm.tr].
+    destruct (C11_wait_uns_proof (st w) W) as (_ & _ & E). rewrite (E F).
+    split; [exact X|]. exists []. split; reflexivity.
+  - destruct (uns_service_fr true (fun _ => Hn) w X W) as [(_ & H2 & _) Hev].
+    split; [|exact Hev]. intro B. apply X. apply H2. exact B.
+Qed.
+
+(* one service call while the command machine owns the flush: the accepted bytes of the call are
+   the next bytes of the unit, all written by the command machine *)
+Lemma session_step : no_uns_hold -> forall w,
+  k_state (k (st w)) = CS_FLUSH -> u_state (u (st w)) <> US_FLUSH ->
+  let w' := fst (service_body w) in
+  exists evs bytes, tr w' = evs ++ tr w /\
+    accepted_wr (rev evs) = map (pair ATCMD) bytes /\
+    bytes ++ remaining (st w') = remaining (st w) /\
+    k_wafter (k (st w')) = k_wafter (k (st w)) /\
+    u_state (u (st w')) <> US_FLUSH /\
+    (k_state (k (st w')) = CS_FLUSH \/
+     (k_state (k (st w')) = k_wafter (k (st w)) /\ remaining (st w') = [])).
+Proof.
+  intros Hn w F X. cbv zeta. rewrite service_body_fst.
+  destruct (uns_step_in_cmd_flush Hn w F X) as (KP & F1 & X1 & e1 & T1 & N1).
+  set (w1 := fst (unsolicited_events_service w)) in *.
+  destruct (remaining_kpart _ _ KP) as [R1 A1].
+  pose proof (C11_frame_cmd_proof w1) as U.
+  assert (Us : u_state (u (st (fst (cmd_service w1)))) = u_state (u (st w1))).
+  { unfold upart in U. inversion U. reflexivity. }
+  destruct (cmd_flush_summary w1 F1) as [(T2 & S2 & O2) | (ch & ok & rest & T2 & P2 & S2)].
+  - exists e1, [].
+    destruct (flush_step_c (st w1)) as [s2 o] eqn:E. cbn [fst snd] in *. subst o.
+    destruct (flush_step_c_none _ _ E) as (Ra & Aa & _ & Ka).
+    rewrite T2, S2. rewrite S2 in Us.
+    split; [exact T1|]. split; [apply accepted_wr_nowr; exact N1|].
+    split; [cbn [app]; congruence|]. split; [congruence|]. split; [congruence|].
+    destruct Ka as [Ka|[Ka Rb]]; [left; congruence|right]. split; congruence.
+  - exists (EWr ATCMD ch ok :: e1). destruct ok.
+    + exists [ch]. rewrite T2, T1, S2. rewrite S2 in Us.
+      split; [reflexivity|]. cbn [rev]. rewrite accepted_wr_app, (accepted_wr_nowr _ N1).
+      split; [reflexivity|].
+      split; [rewrite <- R1; symmetry; apply (remaining_char _ _ _ P2)|].
+      split; [exact A1|]. split; [congruence|]. left. exact F1.
+    + exists []. rewrite T2, T1, S2. rewrite S2 in Us.
+      split; [reflexivity|]. cbn [rev]. rewrite accepted_wr_app, (accepted_wr_nowr _ N1).
+      split; [reflexivity|]. split; [exact R1|]. split; [exact A1|]. split; [congruence|]. left. exact F1.
+Qed.
+
+(* n service calls *)
+Definition svc_n (n : nat) (w : world) : world := iter n (fun w => fst (service_body w)) w.
+
+Lemma svc_n_S : forall n w, svc_n (S n) w = fst (service_body (svc_n n w)).
+Proof.
+  unfold svc_n. induction n as [|n IH]; intros w; [reflexivity|].
+  change (iter (S (S n)) (fun w0 => fst (service_body w0)) w)
+    with (iter (S n) (fun w0 => fst (service_body w0)) (fst (service_body w))).
+  rewrite IH. reflexivity.
+Qed.
+
+Theorem C11_session_proof : no_uns_hold -> forall w0,
+  k_state (k (st w0)) = CS_FLUSH -> u_state (u (st w0)) <> US_FLUSH ->
+  forall n, (forall m, m < n -> k_state (k (st (svc_n m w0))) = CS_FLUSH) ->
+  exists evs bytes,
+    tr (svc_n n w0) = evs ++ tr w0 /\
+    accepted_wr (rev evs) = map (pair ATCMD) bytes /\
+    bytes ++ remaining (st (svc_n n w0)) = remaining (st w0) /\
+    u_state (u (st (svc_n n w0))) <> US_FLUSH /\
+    (k_state (k (st (svc_n n w0))) <> CS_FLUSH ->
+       bytes = remaining (st w0) /\ k_state (k (st (svc_n n w0))) = k_wafter (k (st w0))).
+Proof.
+  intros Hn w0 F0 X0 n.
+  assert (G : (forall m, m < n -> k_state (k (st (svc_n m w0))) = CS_FLUSH) ->
+    exists evs bytes,
+      tr (svc_n n w0) = evs ++ tr w0 /\
+      accepted_wr (rev evs) = map (pair ATCMD) bytes /\
+      bytes ++ remaining (st (svc_n n w0)) = remaining (st w0) /\
+      k_wafter (k (st (svc_n n w0))) = k_wafter (k (st w0)) /\
+      u_state (u (st (svc_n n w0))) <> US_FLUSH /\
+      (k_state (k (st (svc_n n w0))) = CS_FLUSH \/
+       (k_state (k (st (svc_n n w0))) = k_wafter (k (st w0)) /\ remaining (st (svc_n n w0)) = []))).
+  { induction n as [|n IH]; intros Hm.
+    - exists [], []. cbn [svc_n iter]. repeat split; auto.
+    - destruct IH as (evs & bytes & T & A & R & Wa & X & _); [intros m Hlt; apply Hm; lia|].
+      assert (Fn : k_state (k (st (svc_n n w0))) = CS_FLUSH) by (apply Hm; lia).
+      rewrite svc_n_S.
+      destruct (session_step Hn (svc_n n w0) Fn X) as (e2 & b2 & T2 & A2 & R2 & W2 & X2 & K2).
+      cbv zeta in *. exists (e2 ++ evs), (bytes ++ b2).
+      split; [rewrite T2, T; apply app_assoc|].
+      split; [rewrite rev_app_distr, accepted_wr_app, A, A2, map_app; reflexivity|].
+      split; [rewrite <- app_assoc, R2; exact R|].
+      split; [congruence|]. split; [exact X2|].
+      destruct K2 as [K2|[K2 K3]]; [left; exact K2|right]. split; [congruence|exact K3]. }
+  intros Hm. destruct (G Hm) as (evs & bytes & T & A & R & Wa & X & K).
+  exists evs, bytes. repeat split; try assumption.
+  - destruct K as [K|[_ K]]; [contradiction|]. rewrite K, app_nil_r in R. exact R.
+  - destruct K as [K|[K _]]; [contradiction|exact K].
+Qed.
+
+(* ================================================================== *)
+(* 8. the same, over any sequence of API operations (do_op / run)       *)
+(* ================================================================== *)
+Local Notation do_op := (Fsm.do_op D ioS muS hS io_read io_write mu_lock mu_unlock h_call).
+Local Notation step := (Fsm.step D ioS muS hS io_read io_write mu_lock mu_unlock h_call).
+Local Notation run := (Fsm.run D ioS muS hS io_read io_write mu_lock mu_unlock h_call).
+Local Notation api_service := (Fsm.api_service D ioS muS hS io_read io_write mu_lock mu_unlock h_call).
+
+(* every operation other than cat_service leaves both machines' registers, buffers and states
+   alone and writes nothing *)
+Lemma other_op_fr : forall b f w o, o <> OService -> wfr (fr b f) w (fst (do_op w o)).
+Proof.
+  intros b f w o Ho. destruct o; try congruence; cbn [Fsm.do_op fst].
+  - unfold Fsm.api_trigger. apply bracket_fr; [|apply wfr_refl]. intros w1 H1.
+    destruct (push_unsolicited_cmd D (st w1) ci t) as [s' r] eqn:E. cbn [fst].
+    apply (f_equal fst) in E. cbn [fst] in E. subst s'.
+    apply wfr_set_st; [exact H1|]. intro. auto with fr.
+  - unfold Fsm.api_hold_exit. apply bracket_fr; [|apply wfr_refl]. intros w1 H1.
+    destruct (hold_exit (st w1) status) as [s' r] eqn:E. cbn [fst].
+    apply (f_equal fst) in E. cbn [fst] in E. subst s'.
+    apply wfr_set_st; [exact H1|]. intro. auto with fr.
+  - unfold Fsm.api_is_busy. apply bracket_fr; [|apply wfr_refl]. intros w1 H1. exact H1.
+  - unfold Fsm.api_is_hold. apply bracket_fr; [|apply wfr_refl]. intros w1 H1. exact H1.
+  - unfold Fsm.api_is_full. apply bracket_fr; [|apply wfr_refl]. intros w1 H1. exact H1.
+  - apply wfr_refl.
+  - apply wfr_refl.
+  - apply wfr_upd_st; [apply wfr_refl|]. intro H. destruct f; exact H.
+  - apply wfr_upd_st; [apply wfr_refl|]. intro H. destruct f; exact H.
+Qed.
+
+(* one API operation while the command machine owns the flush *)
+Lemma session_op_step : no_uns_hold -> forall w o,
+  k_state (k (st w)) = CS_FLUSH -> u_state (u (st w)) <> US_FLUSH ->
+  let w' := step w o in
+  exists evs bytes, tr w' = evs ++ tr w /\
+    accepted_wr (rev evs) = map (pair ATCMD) bytes /\
+    bytes ++ remaining (st w') = remaining (st w) /\
+    k_wafter (k (st w')) = k_wafter (k (st w)) /\
+    u_state (u (st w')) <> US_FLUSH /\
+    (k_state (k (st w')) = CS_FLUSH \/
+     (k_state (k (st w')) = k_wafter (k (st w)) /\ remaining (st w') = [])).
+Proof.
+  intros Hn w o F X. cbv zeta. unfold Fsm.step.
+  assert (G : exists evs bytes, tr (fst (do_op w o)) = evs ++ tr w /\
+    accepted_wr (rev evs) = map (pair ATCMD) bytes /\
+    bytes ++ remaining (st (fst (do_op w o))) = remaining (st w) /\
+    k_wafter (k (st (fst (do_op w o)))) = k_wafter (k (st w)) /\
+    u_state (u (st (fst (do_op w o)))) <> US_FLUSH /\
+    (k_state (k (st (fst (do_op w o)))) = CS_FLUSH \/
+     (k_state (k (st (fst (do_op w o)))) = k_wafter (k (st w)) /\ remaining (st (fst (do_op w o))) = []))).
+  { destruct (op_eq_service o) as [E|E].
+    - subst o. cbn [Fsm.do_op]. unfold Fsm.api_service, Fsm.bracket.
+      destruct (d_mutex D).
+      + destruct (mu_lock (mu w)) as [m1 ok]. destruct ok; cbn [negb].
+        * set (w1 := logw (ELock true) (set_mu m1 w)).
+          destruct (session_step Hn w1 F X) as (e & bs & T & A & R & Wa & X2 & K2). cbv zeta in *.
+          destruct (service_body w1) as [w2 r]. cbn [fst] in *.
+          destruct (mu_unlock (mu w2)) as [m2 ok2].
+          exists (EUnlock ok2 :: e ++ [ELock true]), bs.
+          assert (T' : tr (logw (EUnlock ok2) (set_mu m2 w2)) = (EUnlock ok2 :: e ++ [ELock true]) ++ tr w).
+          { cbn [Fsm.logw Fsm.tr Fsm.set_mu]. rewrite T. unfold w1. cbn [Fsm.logw Fsm.tr Fsm.set_mu].
+            cbn [app]. rewrite <- app_assoc. reflexivity. }
+          assert (A' : accepted_wr (rev (EUnlock ok2 :: e ++ [ELock true])) = map (pair ATCMD) bs).
+          { cbn [rev]. rewrite accepted_wr_app, rev_app_distr, accepted_wr_app.
+            cbn [rev accepted_wr flat_map app]. rewrite app_nil_r. exact A. }
+          destruct ok2; cbn [negb fst]; (split; [exact T'|]; split; [exact A'|]);
+            repeat split; assumption.
+        * cbn [fst Fsm.logw Fsm.st Fsm.tr Fsm.set_mu]. exists [ELock false], [].
+          repeat split; auto.
+      + destruct (session_step Hn w F X) as (e & bs & H). exists e, bs. exact H.
+    - destruct (other_op_fr true ATCMD w o E) as [[U _] (evs & T & N)].
+      destruct (other_op_fr true UNSOL w o E) as [(KP & _ & KS & _) _].
+      destruct (remaining_kpart _ _ KP) as [R Wa].
+      exists evs, []. split; [exact T|]. split; [apply accepted_wr_nowr; exact N|].
+      split; [exact R|]. split; [exact Wa|].
+      split; [unfold upart in U; inversion U; congruence|]. left. congruence. }
+  destruct (do_op w o) as [w' r]. cbn [fst] in G.
+  destruct G as (evs & bytes & T & A & G). exists (ERet o r :: evs), bytes.
+  cbn [Fsm.logw Fsm.tr Fsm.st]. split; [rewrite T; reflexivity|].
+  split; [cbn [rev]; rewrite accepted_wr_app, A; cbn [accepted_wr flat_map]; apply app_nil_r|].
+  exact G.
+Qed.
+
+Lemma run_snoc : forall w l o, run w (l ++ [o]) = step (run w l) o.
+Proof. intros. unfold Fsm.run. rewrite fold_left_app. reflexivity. Qed.
+
+Theorem C11_session_run_proof : no_uns_hold -> forall w0,
+  k_state (k (st w0)) = CS_FLUSH -> u_state (u (st w0)) <> US_FLUSH ->
+  forall ops,
+  (forall m, m < length ops -> k_state (k (st (run w0 (firstn m ops)))) = CS_FLUSH) ->
+  exists evs bytes,
+    tr (run w0 ops) = evs ++ tr w0 /\
+    accepted_wr (rev evs) = map (pair ATCMD) bytes /\
+    bytes ++ remaining (st (run w0 ops)) = remaining (st w0) /\
+    u_state (u (st (run w0 ops))) <> US_FLUSH /\
+    (k_state (k (st (run w0 ops))) <> CS_FLUSH ->
+       bytes = remaining (st w0) /\ k_state (k (st (run w0 ops))) = k_wafter (k (st w0))).
+Proof.
+  intros Hn w0 F0 X0 ops.
+  assert (G : (forall m, m < length ops -> k_state (k (st (run w0 (firstn m ops)))) = CS_FLUSH) ->
+    exists evs bytes,
+      tr (run w0 ops) = evs ++ tr w0 /\
+      accepted_wr (rev evs) = map (pair ATCMD) bytes /\
+      bytes ++ remaining (st (run w0 ops)) = remaining (st w0) /\
+      k_wafter (k (st (run w0 ops))) = k_wafter (k (st w0)) /\
+      u_state (u (st (run w0 ops))) <> US_FLUSH /\
+      (k_state (k (st (run w0 ops))) = CS_FLUSH \/
+       (k_state (k (st (run w0 ops))) = k_wafter (k (st w0)) /\ remaining (st (run w0 ops)) = []))).
+  { induction ops as [|o l IH] using rev_ind; intros Hm.
+    - exists [], []. cbn [Fsm.run fold_left]. repeat split; auto.
+    - assert (Hl : forall m, m <= length l -> firstn m (l ++ [o]) = firstn m l).
+      { intros m Hle. rewrite firstn_app. replace (m - length l) with 0 by lia.
+        cbn [firstn]. apply app_nil_r. }
+      destruct IH as (evs & bytes & T & A & R & Wa & X & _).
+      { intros m Hlt. rewrite <- Hl by lia. apply Hm. rewrite app_length. cbn [length]. lia. }
+      assert (Fn : k_state (k (st (run w0 l))) = CS_FLUSH).
+      { rewrite <- (firstn_all l), <- Hl by lia. apply Hm. rewrite app_length. cbn [length]. lia. }
+      rewrite run_snoc.
+      destruct (session_op_step Hn (run w0 l) o Fn X) as (e2 & b2 & T2 & A2 & R2 & W2 & X2 & K2).
+      cbv zeta in *. exists (e2 ++ evs), (bytes ++ b2).
+      split; [rewrite T2, T; apply app_assoc|].
+      split; [rewrite rev_app_distr, accepted_wr_app, A, A2, map_app; reflexivity|].
+      split; [rewrite <- app_assoc, R2; exact R|].
+      split; [congruence|]. split; [exact X2|].
+      destruct K2 as [K2|[K2 K3]]; [left; exact K2|right]. split; [congruence|exact K3]. }
+  intros Hm. destruct (G Hm) as (evs & bytes & T & A & R & Wa & X & K).
+  exists evs, bytes. repeat split; try assumption.
+  - destruct K as [K|[_ K]]; [contradiction|]. rewrite K, app_nil_r in R. exact R.
+  - destruct K as [K|[K _]]; [contradiction|exact K].
+Qed.
 
 End World2.
